@@ -38,8 +38,10 @@ CONSTANTS
   SnapChunk,      \* logCompactionBatchSize (bytes per snapshot chunk)
   Journal,        \* nodes keep a file journal (and can be crashed / restarted)
   DumpFile,       \* nodes keep their snapshot in a dump file (else in memory)
+  VersionedCids,  \* ids of calls to a method that exists in several code versions
   Raisers,        \* ids of regular commands whose replicated method raises when executed (on every replica)
   SpecialCids,    \* callback ids of submissions that are not regular commands (membership, version)
+  Conform,        \* trace validation compares every step with this specification (FALSE: formulas only)
   InitConnected,  \* start from a fully connected mesh (saves depth in exhaustive runs)
   Isolated0       \* ... except these nodes, which start connected to nobody
 
@@ -94,7 +96,8 @@ InitNode(n) ==
    noopIdx |-> -1, chgIdx |-> -1, hist |-> <<>>, ver |-> 0, ready |-> FALSE,
    force |-> FALSE, lse |-> -1, needLoad |-> TRUE, serPid |-> 0, serId |-> 0,
    snap |-> "none", trans |-> <<>>, incoming |-> [has |-> FALSE],
-   rocnt |-> 0, roid |-> <<>>, metaCommit |-> 1]
+   rocnt |-> 0, roid |-> <<>>, metaCommit |-> 1,
+   names |-> 0, codeVer |-> 2]    \* code versions (C17): version the method-name table was built for / highest version of the node's code
 
 Init ==
   /\ node = [n \in Nodes |-> IF n \in Voters0 \cup Observers THEN InitNode(n) ELSE [alive |-> FALSE]]
